@@ -5,6 +5,7 @@ package main
 import (
 	"regexp"
 	"strconv"
+	"strings"
 	"sync"
 	"time"
 
@@ -34,6 +35,24 @@ func init() {
 			lookup := func(f string) (string, bool) {
 				if f == "x" {
 					return "00000000-0000-4000-8000-000000000000", true
+				}
+				// other spellings of an issued uuid (C<k> upper case, u<k> urn:uuid: prefix, b<k> in braces, n<k> without dashes):
+				// none of them is the code that was issued
+				if len(f) >= 2 && strings.ContainsRune("Cubn", rune(f[0])) {
+					k, err := strconv.Atoi(f[1:])
+					if err != nil || k < 0 || k >= len(codes) {
+						return "", false
+					}
+					switch f[0] {
+					case 'C':
+						return strings.ToUpper(codes[k]), true
+					case 'u':
+						return "urn:uuid:" + codes[k], true
+					case 'b':
+						return "{" + codes[k] + "}", true
+					default:
+						return strings.ReplaceAll(codes[k], "-", ""), true
+					}
 				}
 				if len(f) < 2 || f[0] != 'c' {
 					return "", false
